@@ -10,7 +10,7 @@ from sa.kern import eval_kernel, make_evaluator, py_calls
 from sa.loopsum import (LoopSummariser, has_opaque, kvar, length_of, r_cell,
                         r_red, r_sum)
 from sa.report import Ctx
-from sa.srcmodel import FuncInfo, func_body
+from sa.srcmodel import FuncInfo, func_body, inline_locals
 from sa.symterm import Env, Poly, Unsupported, all_atoms, c_not, show, \
     show_cond
 
@@ -370,9 +370,11 @@ def _objective(ctx: Ctx) -> None:
                        ("upper_bound", "tour_length_upper_bound")):
         fi = ctx.need(cls.methods.get(meth), f"TourLength.{meth}")
         rets = [n for n in ast.walk(fi.node) if isinstance(n, ast.Return)]
-        ok = len(rets) == 1 and isinstance(rets[0].value, ast.Attribute) \
-            and rets[0].value.attr == attr and \
-            ast.unparse(rets[0].value.value) == "self.instance"
+        rv0 = inline_locals(fi.node, rets[0].value) if len(
+            rets) == 1 and rets[0].value is not None else None
+        ok = isinstance(rv0, ast.Attribute) \
+            and rv0.attr == attr and \
+            ast.unparse(rv0.value) == "self.instance"
         ctx.ob("D5.4", fi, rets[0] if rets else fi.node, ok,
                f"returns self.instance.{attr}" if ok else
                f"does not return the instance's {attr}",
@@ -380,8 +382,10 @@ def _objective(ctx: Ctx) -> None:
     evm = ctx.need(cls.methods.get("evaluate"), "TourLength.evaluate")
     rets = [n for n in ast.walk(evm.node) if isinstance(n, ast.Return)]
     ok = False
-    if len(rets) == 1 and isinstance(rets[0].value, ast.Call):
-        c = rets[0].value
+    rv1 = inline_locals(evm.node, rets[0].value) if len(
+        rets) == 1 and rets[0].value is not None else None
+    if isinstance(rv1, ast.Call):
+        c = rv1
         tgt = repo.resolve_expr(evm.module, c.func)
         ok = tgt is repo.func(TL, "tour_length") and len(c.args) == 2 and \
             ast.unparse(c.args[0]) == "self.instance" and isinstance(
